@@ -164,6 +164,9 @@ def uni_ops(p):
     if us:
         yield "vertex V u=%s" % ",".join(us)
         yield "vertex SV u=%s,%s" % (us[0], us[0])
+        yield "vertex V u=%s x=7" % us[-1]          # caller-supplied uids, equal for several objects
+        yield "vertex V x=7"
+        yield "universe x=7"
         yield "universe m=%s" % ",".join(p.verts()[:2] + p.verts()[:1])
     yield "universe"
 
@@ -208,7 +211,7 @@ def enumerate_histories(real, seed_lines, pool, opsfn, depth, audit=("obs",)):
     yield from rec(base, pool, depth)
 
 
-def random_history(rng, real, opsfn, length, audit=("obs",), nverts=(2, 5), extra=None):
+def random_history(rng, real, opsfn, length, audit=("obs",), nverts=(2, 5), extra=None, attr_values=None):
     """one random history, generated while running the real code (for exact pools).
     Returns (lines, real_answers)."""
     lines, outs = [], []
@@ -223,7 +226,10 @@ def random_history(rng, real, opsfn, length, audit=("obs",), nverts=(2, 5), extr
     do("reset")
     for _ in range(rng.randint(*nverts)):
         r = rng.random()
-        do("universe" if r < 0.25 else "vertex " + rng.choice(["V", "SV", "FV"]))
+        a = ""
+        if attr_values and rng.random() < 0.7:
+            a = " a=0:%d" % rng.choice(attr_values)
+        do("universe" if r < 0.25 else "vertex " + rng.choice(["V", "SV", "FV"]) + a)
     for a in audit:
         do(a)
     for _ in range(length):
